@@ -18,6 +18,7 @@ SHAPE_CONSTS = """CONSTANTS
   MaxDepth = %(maxdepth)d
   MaxSub = %(maxsub)d
   MaxTotal = %(maxtotal)d
+  TypePrefix = ""
   WithBoundary = %(boundary)s
   Seed = %(seed)d
   Modulus = %(modulus)d
@@ -158,21 +159,25 @@ def c03_configs(tier):
             dict(name="layout", leaf=["int8", "int32", "int64", "struct{}"], emb=["val", "ptr"], names="pos", maxfields=3, maxdepth=3,
                  maxtotal=5, boundary=True, modulus=60),
             dict(name="palette", leaf=["bool", "int16", "string", "[0]int64", "[3]int8", "[]byte"], emb=["val"], names="uniq", maxfields=3,
-                 maxdepth=2, maxtotal=4, modulus=80),
+                 maxdepth=2, maxtotal=4, modulus=20),
             dict(name="names", leaf=["int8", "int16"], emb=["val", "ptr"], names="pool", tags="some", maxfields=3, maxdepth=3,
-                 maxtotal=4, modulus=150),
+                 maxtotal=3, modulus=120),
+            dict(name="tags", leaf=["int8", "int16"], emb=["val", "ptr"], names="pos", tags="some", maxfields=3, maxdepth=3,
+                 maxtotal=4, modulus=400),
             dict(name="named", leaf=["int8", "int64"], emb=["val", "ptr"], named=True, names="pos", maxfields=2, maxdepth=3, maxsub=2,
-                 maxtotal=5, modulus=20),
+                 maxtotal=5, modulus=60),
         ]
     return [
         dict(name="layout", leaf=["int8", "int32", "int64", "struct{}"], emb=["val", "ptr"], names="pos", maxfields=3, maxdepth=3,
-             maxtotal=7, boundary=True, modulus=300),
+             maxtotal=6, boundary=True, modulus=50),
         dict(name="palette", leaf=["bool", "int16", "string", "[0]int64", "[3]int8", "[]byte", "any", "*int"], emb=["val"], names="uniq",
-             maxfields=3, maxdepth=2, maxtotal=5, modulus=300),
-        dict(name="names", leaf=["int8", "int16"], emb=["val", "ptr"], names="pool", tags="all", maxfields=3, maxdepth=3,
-             maxtotal=4, modulus=600),
+             maxfields=3, maxdepth=2, maxtotal=4, modulus=10),
+        dict(name="names", leaf=["int8", "int16"], emb=["val", "ptr"], names="pool", tags="none", maxfields=3, maxdepth=3,
+             maxtotal=4, modulus=8),
+        dict(name="tags", leaf=["int8", "int16"], emb=["val", "ptr"], names="pos", tags="all", maxfields=3, maxdepth=3,
+             maxtotal=4, modulus=300),
         dict(name="named", leaf=["int8", "int64"], emb=["val", "ptr"], named=True, names="pos", maxfields=3, maxdepth=3, maxsub=2,
-             maxtotal=6, modulus=100),
+             maxtotal=5, modulus=40),
     ]
 
 
@@ -250,8 +255,18 @@ def collect(run, pkg, p, recs, byid, stats, libword):
         elif t == "pviol":
             s = byid.get(r["sid"])
             sig = {"kind": r["kind"]}
-            what = "%s: %s %s on `%s`: %s" % (r["kind"], r.get("api", ""), json.dumps(r.get("q", "")), G.render_struct(s["fields"]), r.get("detail", ""))
-            run.violation(sig, what, {"property": run.pid, "shape": s, "finding": r})
+            kinds = run.notes.setdefault("violating_observations_by_kind", {})
+            kinds[r["kind"]] = kinds.get(r["kind"], 0) + 1
+            if kinds[r["kind"]] > 3:      # three replayable witnesses per kind are enough; the rest is counted
+                continue
+            q = r.get("req")
+            if q:
+                how = "%s%d[%s](%s)" % ("ForProduct" if r.get("api") == "product" else "ForSpectrum", len(q["types"]),
+                                        ", ".join([q["cont"]] + q["types"]), ", ".join('"%s"' % n for n in q["names"]))
+            else:
+                how = "%s %s" % (r.get("api", ""), json.dumps(r.get("q", "")))
+            what = "%s: %s on `type T %s`: %s" % (r["kind"], how, G.render_struct(s["fields"]), r.get("detail", ""))
+            run.violation(sig, what, {"property": run.pid, "tier": run.tier, "shape": s, "finding": r})
     if p.returncode != 0 or not got_stats:
         raise Infra("generated harness %s died (rc=%s):\n%s" % (pkg, p.returncode, (p.stdout + p.stderr)[-3000:]))
 
@@ -354,6 +369,5 @@ def check(run, replay=None):
 def do_replay(run, path):
     rec = json.load(open(path))
     s = rec["payload"]["shape"]
-    s["sid"] = 1
     s["boundary"] = True
     return {"C03": check_c03, "C01": check_optics, "C02": check_optics}[run.pid](run, shapes=[s])
